@@ -87,7 +87,7 @@ def gen_env(rng, pf):
             px[c] *= 1 + rng.uniform(-vol, vol)
             if skip_all:
                 continue
-            if c == 0 or rng.random() < p_bar:
+            if c == 0 or (gi == 0 and pf.get("bar_at_first")) or rng.random() < p_bar:
                 quote(g, c, px[c])
     n_extra = rng.randint(0, pf.get("extras_max", 12)) if rng.random() < pf.get("p_extras", 0.8) else 0
     kinds = pf.get("extra_kinds", ["nbbo", "nbbo", "custom", "custom", "obs"])
